@@ -309,7 +309,19 @@ func (x *Exec) applyHavoc(st *State, pre *State, spec *FuncSpec, mods []modTarge
 		}
 		return
 	}
+	assigned := map[string]bool{}
+	for _, gs := range spec.GhostSets {
+		assigned[gs.Name] = true
+	}
+	for _, gs := range spec.GhostExits {
+		assigned[gs.Name] = true
+	}
 	for _, m := range mods {
+		if m.ghost != "" && assigned[m.ghost] {
+			// the callee changes this ghost only through its ghostset/ghostexit
+			// assignments (checked when its body is verified): no havoc
+			continue
+		}
 		switch {
 		case m.whole:
 			// make sure every leaf under the declared family exists
@@ -433,6 +445,23 @@ func (x *Exec) applyContract(fr *Frame, st *State, spec *FuncSpec, key string, n
 				o.Props = append(o.Props, "C11")
 			}
 			x.em.oblige(o)
+		}
+	}
+	// closures passed for parameters that have a callback contract must conform to it
+	for i, n := range names {
+		if i >= len(args) {
+			break
+		}
+		cb := spec.Callbacks[n]
+		if cb == nil {
+			continue
+		}
+		if cl, ok := args[i].(Closure); ok {
+			x.checkClosure(fr, st, cl, cb, key, pos)
+		} else if fv, ok := args[i].(FuncV); ok && fv.Fn != nil {
+			x.checkClosure(fr, st, Closure{Fn: fv.Fn}, cb, key, pos)
+		} else {
+			x.fail("callback argument %s of %s is not a visible function", n, key)
 		}
 	}
 	// recursion: the termination measure must strictly decrease
@@ -611,4 +640,78 @@ func (x *Exec) builtin(fr *Frame, st *State, name string, c *ssa.CallCommon, arg
 	}
 	x.fail("unsupported builtin %s at %s", name, x.pos(pos))
 	return nil
+}
+
+// checkClosure verifies that a closure passed as a callback conforms to the
+// callback contract: its body is executed once, at the call site's state,
+// for arbitrary arguments satisfying the callback's requires; everything it
+// writes must be covered by the callback's modifies clause, and its own
+// safety obligations are checked under those assumptions.
+func (x *Exec) checkClosure(fr *Frame, st *State, cl Closure, cb *FuncSpec, callee string, pos token.Pos) {
+	if x.pure > 0 || x.em.discard {
+		return
+	}
+	fn := cl.Fn
+	scratch := st.clone()
+	g := x.em.freshConst("cbreach", "Bool")
+	scratch.Reach = x.em.define("R", "Bool", and(st.Reach, g))
+	var args []Value
+	env := x.newEnv(fr, scratch, nil)
+	env.noLocals = true
+	for i, p := range fn.Params {
+		v := x.freshValue(p.Type(), "cb."+p.Name(), scratch)
+		args = append(args, v)
+		if i < len(cb.Params) {
+			env.vars[cb.Params[i]] = v
+		}
+		env.vars[p.Name()] = v
+	}
+	for _, c := range cb.Requires {
+		x.em.assume(implies(scratch.Reach, x.evalBool(env, c.Expr)))
+	}
+	key := x.P.funcKey(fn)
+	fr.occ["cb:"+key]++
+	nf := x.newFrame(fn, x.P.specs.Funcs[key], fmt.Sprintf("%scb:%s@%d/", fr.prefix, key, fr.occ["cb:"+key]))
+	nf.free = cl.Bindings
+	for i, p := range fn.Params {
+		nf.vals[p] = args[i]
+	}
+	saved := x.written
+	x.written = map[string]*WriteSet{}
+	x.stack = append(x.stack, fn)
+	nf.preSt = scratch.clone()
+	x.runBody(nf, scratch)
+	x.stack = x.stack[:len(x.stack)-1]
+	wrote := x.written
+	x.written = saved
+	// frame: every leaf the closure writes (outside objects it allocated itself) must be declared
+	mods := x.evalModifies(env, cb.Modifies)
+	var ks []string
+	for k := range wrote {
+		ks = append(ks, k)
+	}
+	sort.Strings(ks)
+	for _, k := range ks {
+		ws := wrote[k]
+		onlyNew := !ws.Whole
+		for _, b := range ws.Bases {
+			if !ws.New[b] {
+				onlyNew = false
+			}
+		}
+		if onlyNew {
+			continue
+		}
+		ok := cb.ModAll
+		for _, m := range mods {
+			if m.whole && (k == m.key || strings.HasPrefix(k, m.key+".") || strings.HasPrefix(k, m.key+"#") || strings.HasPrefix(k, m.key+"@")) {
+				ok = true
+			}
+		}
+		if !ok {
+			o := &Obligation{Name: fmt.Sprintf("%s/%scb:%s/frame:%s", x.topKey, fr.prefix, key, k), Kind: "frame", Guard: st.Reach, Prop: "false",
+				Pos: x.pos(pos), Src: "callback passed to " + callee + " writes " + k + ", which the callback contract does not allow", FnName: x.topKey, Props: x.defProps, Inputs: x.inputs}
+			x.em.oblige(o)
+		}
+	}
 }
